@@ -288,6 +288,10 @@ class PieceLenCheck:
         xs |= {16385, 16395, 32769, 49152, 1 << 24, (1 << 24) + 1}
         return sorted(xs)
 
+    E2E_STRINGS = ["false", "False", "true", "abc", "auto", "none", "1e5",
+                   "0x4000", "16384.0", "2**14", "15\n", " 15", "15 ", "+15",
+                   "१५", "-15", "16_384"]
+
     def run_e2e(self, g, res):
         route = g["route"]
         seed = g["seed"]
@@ -296,14 +300,23 @@ class PieceLenCheck:
         with open(payload, "wb") as f:
             f.write(world.content(seed, 0, 20000))
         n = 0
-        for x in self.e2e_values():
-            sp = spec(x)
+        for x in self.e2e_values() + self.E2E_STRINGS:
+            if isinstance(x, str):
+                sp = string_spec(x)
+                if route == "config":
+                    # configparser strips surrounding whitespace itself
+                    sp = string_spec(x.strip())
+                if route != "lib" and x.startswith("-"):
+                    continue   # argparse would read it as an option
+                forms = [x]
+            else:
+                sp = spec(x)
+                forms = [x] if route == "lib" else []
+                if x >= 0:
+                    forms.append(str(x))
+                elif route != "lib":
+                    continue
             if sp[0] != "reject" and sp[1] > (1 << 24):
-                continue
-            forms = [x] if route == "lib" else []
-            if x >= 0:
-                forms.append(str(x))
-            elif route != "lib":
                 continue
             for arg in forms:
                 if route == "lib" and not arg:
@@ -333,7 +346,11 @@ class PieceLenCheck:
                     got = ("exc:" + type(e).__name__,)
                 res.states += 1
                 res.validated += 1
-                bad = self.judge_value(res, arg, sp, got, "e2e-" + route)
+                bad = self.judge_value(res, arg,
+                                       string_spec(arg.strip() if route ==
+                                                   "config" else arg)
+                                       if isinstance(arg, str) else sp, got,
+                                       "e2e-" + route)
                 if got[0] != "ok" and os.path.exists(out):
                     res.violation(f"C12|e2e-{route}|metafile-written-despite-"
                                   "rejection", {"kind": "e2e", "x": str(arg),
